@@ -84,7 +84,41 @@ fn word_spans(text: &str, le: &str, sep: Sep) -> Vec<(usize, usize)> {
         }
         off += para.len() + le.len();
     }
+    // the other admissible reading of "paragraph" (every LF, with one CR before it, ends a paragraph): its
+    // words are admissible carriers of the side conditions too
+    let stray = if le == "\r\n" {
+        let b = text.as_bytes();
+        (0..b.len()).any(|i| b[i] == b'\n' && (i == 0 || b[i - 1] != b'\r'))
+    } else {
+        text.contains("\r\n")
+    };
+    if stray {
+        let mut off = 0usize;
+        for piece in text.split('\n') {
+            let para = piece.strip_suffix('\r').unwrap_or(piece);
+            let mut p = off;
+            for w in separator.find_words(para) {
+                let wl = w.word.len();
+                spans.push((p, p + wl));
+                p += wl + w.whitespace.len();
+            }
+            off += piece.len() + 1;
+        }
+    }
     spans
+}
+
+/// "Part of a line-ending sequence": the statement of C01 does not say *the
+/// configured* line ending, so a CR LF or a bare LF may be left uncovered in
+/// either mode (a library that treats both as paragraph breaks keeps C01).
+fn other_ending(rest: &str) -> Option<usize> {
+    if rest.starts_with("\r\n") {
+        Some(2)
+    } else if rest.starts_with('\n') {
+        Some(1)
+    } else {
+        None
+    }
 }
 
 impl<'a> Search<'a> {
@@ -126,6 +160,8 @@ impl<'a> Search<'a> {
                 p += 1;
             } else if self.text[p..].starts_with(self.le) {
                 p += self.le.len();
+            } else if let Some(n) = other_ending(&self.text[p..]) {
+                p += n;
             } else {
                 break;
             }
@@ -142,6 +178,8 @@ impl<'a> Search<'a> {
                 p += 1;
             } else if self.text[p..].starts_with(self.le) {
                 p += self.le.len();
+            } else if let Some(n) = other_ending(&self.text[p..]) {
+                p += n;
             } else {
                 return false;
             }
